@@ -84,30 +84,6 @@ InitStyleSeg  == c \in CasesStyleSeg(0)
 InitTB        == c \in CasesTB(0)
 Next == UNCHANGED c
 
-Unspec(cc) == CASE cc.op = "partition" -> PartitionUnspecified(cc.t, cc.ix)
-                [] cc.op = "trim"      -> TrimUnspecified(cc.w)
-                [] OTHER               -> FALSE
-
-\* builder: the texts and Empty() flags observed after each step, starting with the zero value
-RECURSIVE TBRun(_, _, _)
-TBRun(tb, ts, ix) ==
-  IF ts = <<>> THEN [texts |-> <<>>, flags |-> <<>>]
-  ELSE LET tb1 == TBWrite(IF Head(ix) = 1 THEN TBReset(tb) ELSE tb, Head(ts))
-           rest == TBRun(tb1, Tail(ts), Tail(ix))
-       IN [texts |-> <<TBText(tb1)>> \o rest.texts, flags |-> <<TBEmpty(tb1)>> \o rest.flags]
-
-One(texts) == {[texts |-> texts, flags |-> <<>>]}
-Accepted(cc) ==
-  CASE cc.op = "t"         -> One(<<RefT(cc.s, cc.gs)>>)
-    [] cc.op = "concat"    -> One(<<RefConcat(cc.ts)>>)
-    [] cc.op = "partition" -> IF Unspec(cc) THEN {} ELSE One(RefPartition(cc.t, cc.ix))
-    [] cc.op = "split"     -> UNION {One(ps) : ps \in SplitAccepted(cc.t, cc.r)}
-    [] cc.op = "trim"      -> IF Unspec(cc) THEN {} ELSE One(<<RefTrim(cc.t, cc.w)>>)
-    [] cc.op = "style"     -> One(<<RefStyle(cc.t, cc.gs)>>)
-    [] cc.op = "styleseg"  -> One(<<[nil |-> FALSE, segs |-> <<RefStyleSegment(cc.t.segs[1], cc.gs)>>]>>)
-    [] cc.op = "tb"        -> LET r0 == TBRun(TBInit, cc.ts, cc.ix)
-                              IN {[texts |-> <<TBText(TBInit)>> \o r0.texts, flags |-> <<TBEmpty(TBInit)>> \o r0.flags]}
-
 LawOK ==
   CASE c.op = "t"         -> LawT(c.s, c.gs)
     [] c.op = "concat"    -> LawConcat(c.ts)
